@@ -127,6 +127,7 @@ class CSSStyleSheet(css_parser.stylesheets.StyleSheet):
 
         for rule in cssRules:
             rule._parentRule = None
+            rule._parent = None
             rule._parentStyleSheet = self
 
         self._cssRules = cssRules
@@ -809,6 +810,7 @@ class CSSStyleSheet(css_parser.stylesheets.StyleSheet):
 
         # post settings: the rule is a top-level rule of this sheet now
         rule._parentRule = None
+        rule._parent = None
         rule._parentStyleSheet = self
 
         if rule.IMPORT_RULE == rule.type and not rule.hrefFound:
